@@ -335,7 +335,33 @@ def _run_slice(run, cases):
 
 
 def _after_slices(run, tier, cases):
-    # ---- unknown hint names are errors
+    # ---- unknown hint names are errors — also when another branch could take the whole tuple as a datum (an array branch
+    # whose items accept both elements, a map / record branch never can)
+    for u, hint in (((["null", "string", {"type": "array", "items": "string"}]), ("strng", "hello")),
+                    ((["null", {"type": "array", "items": ["string", "long"]}, "long"]), ("lng", 5)),
+                    (([{"type": "array", "items": "string"}, {"type": "record", "name": "ns.Rec", "fields": [{"name": "a", "type": "string"}]}]), ("Rec", "x")),
+                    ((["int", {"type": "array", "items": ["null", "string", {"type": "map", "values": "int"}]}]), ("integer", None)),
+                    ((["null", {"type": "array", "items": "string"}]), ("a", "b"))):
+        for place in ("top", "field", "array", "map"):
+            if place == "top":
+                s, v = u, hint
+            elif place == "field":
+                s, v = {"type": "record", "name": "HoldsU", "fields": [{"name": "u", "type": u}]}, {"u": hint}
+            elif place == "array":
+                s, v = {"type": "array", "items": u}, [hint]
+            else:
+                s, v = {"type": "map", "values": u}, {"k": hint}
+            ie = impl.enc(s, v, {"dtn": False, "strict": False})
+            run.cov["evaluations"] += 1
+            run.tag("unknown-hint-beside-array-branch")
+            if "bytes" in ie:
+                run.fail({"schema": s, "value": to_wire(v), "written": ie, "tags": ["unknown-hint", place]},
+                         "a (name, value) hint naming no branch was written instead of raising", kind="oracle")
+    # the same tuples with tuple notation disabled are ordinary sequences and go to the array branch
+    ie = impl.enc(["null", "string", {"type": "array", "items": "string"}], ("strng", "hello"), {"dtn": True, "strict": False})
+    if "bytes" not in ie:
+        run.fail({"schema": ["null", "string", {"type": "array", "items": "string"}], "value": to_wire(("strng", "hello")), "opts": {"dtn": True}, "impl": ie},
+                 "with disable_tuple_notation a tuple of strings is not written as an array", kind="oracle")
     for (s, data, opts) in cases[:scale(tier, 200)]:
         if isinstance(s, list) and not opts.get("dtn"):
             ie = impl.enc(s, ("No.Such.Branch", data[0]), opts)
